@@ -169,6 +169,10 @@ fn compute_one_level(
     let shuffled_nodes = get_shuffled_node_names(graph, seed);
     let mut nb_moves = 1;
     let mut improvement = false;
+    // With weights whose sums are rounded, two moves can each look like a gain although they undo
+    // one another, and the sweeps would repeat the same assignments forever. The loop therefore
+    // stops as soon as a sweep ends in an assignment of nodes to communities it has ended in before.
+    let mut seen_assignments: HashSet<Vec<usize>> = HashSet::new();
     while nb_moves > 0 {
         #[cfg(feature = "verif_hooks")]
         crate::verif_hooks::observe(
@@ -204,6 +208,12 @@ fn compute_one_level(
                 *node2com.entry(*u).or_default() = best_com;
                 improvement = true;
                 nb_moves += 1;
+            }
+        }
+        if nb_moves > 0 {
+            let assignment: Vec<usize> = node2com.iter().sorted().map(|(_, c)| *c).collect();
+            if !seen_assignments.insert(assignment) {
+                break;
             }
         }
     }
